@@ -23,7 +23,7 @@ def run(c):
     if c.replay:
         for f in c.replay.get("failures", []):
             if f.get("input"):
-                lines.append((f["input"], "replay", {}))
+                lines.append((f["input"], "replay-fail", {}))
         for t in c.replay.get("broken_ties", []):
             lines.append((t["line"], "replay", {}))
     samples, proto = L.sample_lines(impl)
@@ -35,6 +35,8 @@ def run(c):
     res = c.tie("verdict", [l for l, _, _ in lines], impl, model)
     for (l, kind, meta), (_, a, _) in zip(lines, res):
         c.count("kind:" + kind + ":" + a)
+        if kind == "replay-fail" and a != "acc":
+            c.oracle_fail(l, "replayed safe edit not accepted: verdict %s" % a, l)
         if kind in ("self", "safe", "sample-acc") and a != "acc":
             what = {"self": "a schema is not accepted as compatible with itself",
                     "safe": "documented safe edit(s) %s not accepted" % ",".join(m["kind"] for m in meta.get("edits", [])),
